@@ -1320,7 +1320,8 @@ pub(crate) fn target_n_trees(
             // 2. Find the number of tree nodes required per trees
             let tree_nodes_per_tree = descendant_required + 1;
             // 3. Find the number of tree required to get as many tree nodes as item:
-            let mut nb_trees = item_indices.len() / tree_nodes_per_tree;
+            //    We need at least one tree to be able to search in the index.
+            let mut nb_trees = (item_indices.len() / tree_nodes_per_tree).max(1);
 
             // 4. We don't want to shrink too quickly when a user remove some documents.
             //    We're only going to shrink if we should remove more than 20% of our trees.
